@@ -742,3 +742,172 @@ def build_unit(u: Unit, n_islands=(1, 3)):
                                 *([z3.And(z_int(d[2][0].v) == 0, z_int(d[2][1].v) == 4294967295) for d in draws] if rng_args else [])),
                          {"pygmo_seed": z3.Int("pygmo_seed")}, BUILD_REPLAY)
             u.cover(f"islands.build.cover{tag}", ps, lambda p: p.kind == "return")
+
+
+# ---- the running-mode objects and the archipelago keep what they are given (seeds of 0 included) -------------------------------------------
+MODE_CTOR_REPLAY = lambda w: {"code": """
+import pyxel
+from pyxel.exposure import Exposure, Readout
+from pyxel.observation import Observation, ParameterValues
+VIOLATED, DETAIL = False, 'Exposure / Observation keep the pipeline seed, readout, outputs and flags they are given'
+r = Readout(times=[1.0, 2.0])
+for seed in (0, 1, 12345, None):
+    e = Exposure(readout=r, pipeline_seed=seed)
+    o = Observation(parameters=[ParameterValues(key='a.b.c', values=[1, 2])], readout=r, pipeline_seed=seed, with_dask=False)
+    o2 = Observation(parameters=[ParameterValues(key='a.b.c', values=[1, 2])], readout=r, pipeline_seed=seed, with_dask=True, mode='sequential')
+    for obj in (e, o, o2):
+        if obj.pipeline_seed != seed or type(obj.pipeline_seed) is not type(seed) or obj.readout is not r or obj.outputs is not None:
+            VIOLATED, DETAIL = True, f'{type(obj).__name__}(pipeline_seed={seed!r}): seed {obj.pipeline_seed!r}, readout kept: {obj.readout is r}'; break
+    if o.with_dask is not False or o2.with_dask is not True:
+        VIOLATED, DETAIL = True, f'with_dask given False / True, kept {o.with_dask!r} / {o2.with_dask!r}'
+    if VIOLATED: break
+pyxel.set_options(working_directory=None)
+""", "expect": "the running-mode objects return exactly the settings they were constructed with (seed 0 is a seed)"}
+
+
+def mode_ctor_unit(u: Unit):
+    """Exposure.__init__ and Observation.__init__: for EVERY pipeline seed (any integer, 0 included, or none) the `pipeline_seed` property
+    returns the given value; the readout and outputs objects are the given ones (Observation: a default Readout only when none is given);
+    `with_dask` is the given flag; the result type is get_result_id of the given text; the parameter mode is what build_parameter_mode
+    returns for the given mode / parameters / file / column range (C05 mode.selection)."""
+    EXQ, OBQ = "pyxel/exposure/exposure.py", "pyxel/observation/observation.py"
+    for kind, q in (("Exposure", EXQ), ("Observation", OBQ)):
+        fi = u.fn(f"{q}::{kind}.__init__")
+        ci = u.cls(f"{q}::{kind}")
+        for seed in ("given", "absent"):
+            cfg = Cfg("real")
+            boundary.install(cfg, prefixes=("xarray.", "dask.", "tqdm.", "pandas."))
+            rec = u.track({})
+            cfg.contracts["pyxel/pipelines/processor.py::get_result_id"] = Contract("pyxel/pipelines/processor.py::get_result_id", lambda ex, args, kwargs, fr: VOpaque("xr", None, {"label": "result_id", "args": list(args) + list(kwargs.values())}), "result id of the text")
+            mq = "pyxel/observation/observation.py::build_parameter_mode"
+            cfg.contracts[mq] = Contract(mq, lambda ex, args, kwargs, fr, rec=rec: (rec.update(mode_kw=dict(kwargs), mode_args=list(args)), VOpaque("xr", None, {"label": "parameter_mode", "truthy": True}))[1], "C05.mode.selection")
+            cfg.lib_overrides["repo:pyxel.set_options"] = lambda ex, f, args, kwargs, fr, rec=rec: (rec.update(options=dict(kwargs)), NONE)[1]
+            for sq in ("pyxel/options.py::set_options", "pyxel/__init__.py::set_options"):
+                cfg.contracts[sq] = Contract(sq, lambda ex, args, kwargs, fr, rec=rec: (rec.update(options=dict(kwargs)), NONE)[1], "global option (working directory)")
+            rq = "pyxel/exposure/readout.py::Readout.__init__"
+            cfg.contracts[rq] = Contract(rq, lambda ex, args, kwargs, fr, rec=rec: (rec.update(default_readout=args[0]), NONE)[1], "C02.readout.ctor")
+
+            def setup(ex, kind=kind, seed=seed, rec=rec):
+                rec.clear()
+                h = ex.hold = {k: VOpaque("xr", None, {"label": k, "truthy": True}) for k in ("readout", "outputs", "parameters")}
+                kw = {"readout": h["readout"], "outputs": h["outputs"], "result_type": VStr(z3.String("result_type")),
+                      "pipeline_seed": VInt(z3.Int("pipeline_seed")) if seed == "given" else NONE, "working_directory": NONE}
+                if kind == "Observation":
+                    kw.update(parameters=h["parameters"], mode=VStr(z3.String("mode")), from_file=NONE, column_range=NONE, with_dask=VBool(z3.Bool("with_dask")))
+                me = ex.st.alloc(HObj(ci, {}))
+                ex.me = me
+                return [me], kw
+            ps = u.paths(fi, setup, cfg, label=f"{kind}.__init__[seed {seed}]")
+            for p in ps:
+                if p.kind != "return":
+                    u.oblige(p, f"mode.ctor[{kind}].accepts[{seed}]", False, {"exc": p.exc_name(), "pipeline_seed": z3.Int("pipeline_seed")}, MODE_CTOR_REPLAY)
+                    continue
+                fr0 = Frame(None, ci.module)
+                try:
+                    got = p.ex.getattr(p.ex.me, "pipeline_seed", fr0)
+                except PyExc:
+                    got = None
+                if seed == "given":
+                    u.oblige(p, f"mode.ctor[{kind}].keeps_the_pipeline_seed", (z_int(got.v) == z3.Int("pipeline_seed")) if isinstance(got, VInt) else z3.BoolVal(False), {"pipeline_seed": z3.Int("pipeline_seed")}, MODE_CTOR_REPLAY)
+                else:
+                    u.oblige(p, f"mode.ctor[{kind}].no_seed_stays_none", isinstance(got, VNone), {}, MODE_CTOR_REPLAY)
+                f = p.st.cell(p.ex.me).fields
+                h = p.ex.hold
+                same = f.get("readout") is h["readout"] and f.get("outputs") is h["outputs"] and isinstance(f.get("working_directory"), VNone)
+                rid = f.get("_result_type")
+                same = same and isinstance(rid, VOpaque) and rid.info.get("label") == "result_id" and len(rid.info["args"]) == 1 and isinstance(rid.info["args"][0], VStr) \
+                    and not is_conc(rid.info["args"][0].v) and z3.eq(rid.info["args"][0].v, z3.String("result_type"))
+                goal = zb(bool(same))
+                if kind == "Observation":
+                    mk = rec.get("mode_kw", {})
+                    wd = f.get("with_dask")
+                    ok_mode = (mk.get("parameters") is h["parameters"] and isinstance(mk.get("mode"), VStr) and not is_conc(mk["mode"].v) and z3.eq(mk["mode"].v, z3.String("mode"))
+                               and isinstance(mk.get("custom_filename"), VNone) and isinstance(mk.get("column_range"), VNone) and not rec.get("mode_args")
+                               and isinstance(f.get("parameter_mode"), VOpaque) and f["parameter_mode"].info.get("label") == "parameter_mode")
+                    goal = z3.And(goal, zb(bool(ok_mode)), (z_bool(wd.v) == z3.Bool("with_dask")) if isinstance(wd, VBool) else z3.BoolVal(False))
+                u.oblige(p, f"mode.ctor[{kind}].keeps_the_given_settings[{seed}]", goal, {}, MODE_CTOR_REPLAY)
+            u.cover(f"mode.ctor[{kind}].cover[{seed}]", ps, lambda p: p.kind == "return")
+
+
+ARCHI_CTOR_REPLAY = lambda w: {"code": """
+import sys, types
+import numpy as np
+class _Island:
+    def __init__(self, **kw): self.kw = kw
+class _Archi:
+    def __init__(self, **kw): self.items = []
+    def push_back(self, isl): self.items.append(isl)
+class _Algo:
+    def __init__(self, a): self.a = a
+    def set_verbosity(self, v): pass
+fake = types.ModuleType('pygmo'); fake.island = lambda **kw: _Island(**kw); fake.archipelago = _Archi; fake.algorithm = _Algo; fake.problem = lambda p: ('problem', p)
+real = sys.modules.get('pygmo'); sys.modules['pygmo'] = fake
+from pyxel.calibration.archipelago_datatree import ArchipelagoDataTree
+class Alg:
+    population_size = 10
+    def get_algorithm(self): return 'algo'
+VIOLATED, DETAIL = False, 'the archipelago keeps the settings it is given; the island seeds are the draws of default_rng(pygmo_seed), 0 is a seed'
+try:
+    for seed in (0, 3, None):
+        for parallel in (False, True):
+            a = ArchipelagoDataTree(num_islands=3, udi='udi', algorithm=Alg(), problem='prob', pop_size=5, bfe='bfe', topology='topo', pygmo_seed=seed, parallel=parallel, with_bar=False)
+            got = [i.kw.get('seed') for i in a._pygmo_archi.items]
+            if seed is None:
+                want = [None] * 3
+            else:
+                r = np.random.default_rng(seed=seed); want = [int(r.integers(0, np.iinfo(np.uint32).max)) for _ in range(3)]
+            if (a.pygmo_seed, a.num_islands, a.pop_size, a.parallel, a.with_bar, a.udi, a.bfe, a.topology) != (seed, 3, 5, parallel, False, 'udi', 'bfe', 'topo') or got != want:
+                VIOLATED, DETAIL = True, f'ArchipelagoDataTree(pygmo_seed={seed!r}, parallel={parallel}): keeps seed {a.pygmo_seed!r}; island seeds {got}, expected {want}'
+                raise StopIteration
+except StopIteration:
+    pass
+finally:
+    if real is not None: sys.modules['pygmo'] = real
+    else: sys.modules.pop('pygmo', None)
+""", "expect": "ArchipelagoDataTree(...) keeps its settings and seeds its islands from pygmo_seed (0 included)"}
+
+
+def archipelago_ctor_unit(u: Unit):
+    """ArchipelagoDataTree.__init__: the object keeps the number of islands, island type, algorithm, problem, population size, bfe,
+    topology, optimiser seed (ANY integer, 0 included, or none), parallel and progress-bar flags it is given, before it builds the
+    islands (`_build` is the contract of unit islands.build, which reads exactly these fields)."""
+    fi = u.fn(f"{AD}::ArchipelagoDataTree.__init__")
+    aci = u.cls(f"{AD}::ArchipelagoDataTree")
+    for seed in ("given", "absent"):
+        cfg = Cfg("real")
+        boundary.install(cfg, prefixes=("xarray.", "dask.", "tqdm.", "pandas.", "pygmo."))
+        rec = u.track({})
+
+        def build(ex, args, kwargs, fr, rec=rec):
+            rec["at_build"] = dict(ex.st.cell(args[0]).fields)
+            return NONE
+        cfg.contracts[f"{AD}::ArchipelagoDataTree._build"] = Contract(f"{AD}::ArchipelagoDataTree._build", build, "islands.build")
+
+        def setup(ex, seed=seed, rec=rec):
+            rec.clear()
+            algo = ex.st.alloc(HObj("algo", {"population_size": VInt(z3.Int("population_size")), "get_algorithm": VOpaque("xr", None, {"label": "get_algorithm", "truthy": True})}))
+            h = ex.hold = {k: VOpaque("xr", None, {"label": k, "truthy": True}) for k in ("udi", "problem", "bfe", "topology")}
+            h["algorithm"] = algo
+            ex.st.assume(z3.Int("population_size") >= 1)
+            kw = dict(h, num_islands=VInt(z3.Int("num_islands")), pop_size=VInt(z3.Int("pop_size")), pygmo_seed=VInt(z3.Int("pygmo_seed")) if seed == "given" else NONE,
+                      parallel=VBool(z3.Bool("parallel")), with_bar=VBool(z3.Bool("with_bar")))
+            me = ex.st.alloc(HObj(aci, {}))
+            ex.me = me
+            return [me], kw
+        ps = u.paths(fi, setup, cfg, label=f"ArchipelagoDataTree.__init__[seed {seed}]")
+        for p in ps:
+            if p.kind != "return" or "at_build" not in rec:
+                u.oblige(p, f"archipelago.ctor.builds[{seed}]", False, {"exc": p.exc_name(), "pygmo_seed": z3.Int("pygmo_seed")}, ARCHI_CTOR_REPLAY)
+                continue
+            f, h = rec["at_build"], p.ex.hold
+            ident = all(f.get(k) is h[k] for k in ("udi", "problem", "bfe", "topology")) and isinstance(f.get("algorithm"), VRef) and f["algorithm"].addr == h["algorithm"].addr
+            num = lambda k: z_int(f[k].v) if isinstance(f.get(k), VInt) else None
+            nums = num("num_islands") is not None and num("pop_size") is not None and isinstance(f.get("parallel"), VBool) and isinstance(f.get("with_bar"), VBool)
+            goal = z3.And(zb(bool(ident)), num("num_islands") == z3.Int("num_islands"), num("pop_size") == z3.Int("pop_size"), z_bool(f["parallel"].v) == z3.Bool("parallel"),
+                          z_bool(f["with_bar"].v) == z3.Bool("with_bar")) if ident and nums else z3.BoolVal(False)
+            u.oblige(p, f"archipelago.ctor.keeps_the_given_settings[{seed}]", goal, {}, ARCHI_CTOR_REPLAY)
+            if seed == "given":
+                u.oblige(p, "archipelago.ctor.keeps_the_optimiser_seed", (num("pygmo_seed") == z3.Int("pygmo_seed")) if num("pygmo_seed") is not None else z3.BoolVal(False), {"pygmo_seed": z3.Int("pygmo_seed")}, ARCHI_CTOR_REPLAY)
+            else:
+                u.oblige(p, "archipelago.ctor.no_seed_stays_none", isinstance(f.get("pygmo_seed"), VNone), {}, ARCHI_CTOR_REPLAY)
+        u.cover(f"archipelago.ctor.cover[{seed}]", ps, lambda p: p.kind == "return")
